@@ -183,34 +183,7 @@ func enumeratePurge(t *testing.T, pool []string, keeps []int, id string, first i
 		for _, usePre := range []bool{false, true} {
 			for _, reselect := range []bool{false, true} {
 				for _, keep := range keeps {
-					s := newSut(t, mFlags{usePre: usePre})
-					s.prefix = "enum_"
-					for i, st := range state {
-						if st == 1 || st == 2 {
-							s.addResource(id, pool[i], nil, st == 1, false, false)
-						}
-					}
-					s.selectVersions()
-					s.getFile(id)
-					for i, st := range state {
-						if st == 3 || st == 4 {
-							s.addResource(id, pool[i], nil, st == 3, false, false)
-						}
-					}
-					if reselect {
-						s.selectVersions()
-					}
-					s.checkListing("setup")
-					s.purge(keep)
-					s.checkListing("Purge")
-					// what is selected and handed out afterwards exists
-					s.selectVersions()
-					s.getFile(id)
-					s.checkListing("SelectVersions+GetFile after Purge")
-					if s.purgeDeleted > 0 {
-						effective++
-					}
-					s.close()
+					purgeHistory(t, pool, state, id, usePre, reselect, keep, &effective)
 					total++
 					if n >= 4 {
 						nontrivial++
@@ -233,6 +206,38 @@ func enumeratePurge(t *testing.T, pool []string, keeps []int, id string, first i
 	state[0] = first
 	rec(1)
 	return
+}
+
+// purgeHistory runs one enumerated two-phase history.
+func purgeHistory(t *testing.T, pool []string, state []int, id string, usePre, reselect bool, keep int, effective *int64) {
+	s := newSut(t, mFlags{usePre: usePre})
+	defer s.close() // also when a check fails
+	s.prefix = "enum_"
+	for i, st := range state {
+		if st == 1 || st == 2 {
+			s.addResource(id, pool[i], nil, st == 1, false, false)
+		}
+	}
+	s.selectVersions()
+	s.getFile(id)
+	for i, st := range state {
+		if st == 3 || st == 4 {
+			s.addResource(id, pool[i], nil, st == 3, false, false)
+		}
+	}
+	if reselect {
+		s.selectVersions()
+	}
+	s.checkListing("setup")
+	s.purge(keep)
+	s.checkListing("Purge")
+	// what is selected and handed out afterwards exists
+	s.selectVersions()
+	s.getFile(id)
+	s.checkListing("SelectVersions+GetFile after Purge")
+	if s.purgeDeleted > 0 {
+		*effective++
+	}
 }
 
 // TestExhaustiveFileNames: all identifiers over a small alphabet of directory / base / extension parts x versions.
